@@ -13,6 +13,12 @@ TRUSTED = [
     "compared byte for byte, this run)",
     "extractor translate/extract_escapes.py (branch table of printEscaped) regenerating Gen/EscapeTables.lean; its output is also "
     "exercised by the correspondence",
+    "the contract of the console seam: every byte handed to PlatformSpecificFPuts(.., stdout) reaches the reader exactly once, in "
+    "order (ConsoleTestOutput::printBuffer flushes after every write, so a forked test process starts with an empty buffer). The "
+    "model stops at the seam; the contract is TESTED, not proved: a fifth of the generated runs (and corpus cases) go through the "
+    "real CommandLineTestRunner with -oteamcity - nearly half of them with -p and a failure message of 9-20 KB - in a process of "
+    "its own whose stdout is a fully buffered pipe, with the real fputs/fflush implementations; the bytes read from the pipe are "
+    "judged by the same oracles (each message once, balanced, values decode to the originals)",
     "the TeamCity escaping rules as written down in Spec/TeamCity.lean (| before ' | [ ], |n, |r)",
     "extractor translate/extract_failure_ctors.py (member-initialiser lists of the three TestFailure constructors, copy constructor, "
     "getters, isOutsideTestFile/isInHelperFunction, FailFailure) regenerating Gen/FailureCtors.lean; exercised by the correspondence "
@@ -32,11 +38,25 @@ RULE = ("scripted registries: 1-5 group runs, pass / fail through every TestFail
         "longer than 100 bytes; non-trivial = the stream contains an escaped byte or a failure or an ignored test; distinct = distinct op sequences")
 
 
-def gen_case(rng, n, malformed=False):
+def gen_case(rng, n, malformed=False, real_io=False):
     ops = G.gen_registry(rng, n, empty_groups=malformed, repeat_groups=rng.random() < 0.3, with_package=False,
                          with_prints=rng.random() < 0.3, print_avoid="#", specials=G.SPECIAL_TC + "&<\"")
     # the file of a print line is printed raw as well
     ops = [_clean_print(l) for l in ops]
+    if real_io:
+        # the real CommandLineTestRunner with -oteamcity in a process of its own, stdout a fully buffered pipe
+        ops.insert(0, "realio")
+        if rng.random() < 0.45:
+            ops.insert(0, "separate")          # -p: every test in its own process
+            # a failure message longer than any stdio buffer, in a test that runs
+            big = "".join(rng.choice("abc'|[]xyz \n%d") for _ in range(rng.choice([9000, 12000, 20000])))
+            idx = [i for i, l in enumerate(ops) if l.startswith("test ") and l.endswith(" run")]
+            if idx:
+                at = rng.choice(idx) + 1
+                w = ops[at - 1].split()
+                ops.insert(at, "fail %s %s %s" % (w[3], w[4], G.hx(big)))
+        ops.append("run")
+        return ops
     ops.append("run")
     if rng.random() < 0.1:
         ops += G.gen_registry(rng, 2, with_filter=False, with_prints=False, specials=G.SPECIAL_TC)
@@ -60,7 +80,7 @@ def generate(rng, tier):
     out = []
     for i in range(n):
         size = rng.choice([1, 2, 4, 8, 16]) if tier == "quick" else rng.choice([1, 3, 8, 20, 60])
-        out.append(("gen", gen_case(rng, size)))
+        out.append(("gen", gen_case(rng, size, real_io=rng.random() < 0.2)))
     for i in range(n // 8):
         out.append(("malformed", gen_case(rng, rng.choice([1, 3, 6]), malformed=True)))
     return out
@@ -74,9 +94,14 @@ def translate(ctx):
     return (extract_escapes.run() or []) + (extract_failure_ctors.run() or [])
 
 
+def ignore_line(l):
+    """the stream of a `-p` run is judged by the oracle only (separate processes are not part of the writer model)"""
+    return l.startswith("outp ")
+
+
 def _stream(r):
     for l in r.impl:
-        if l.startswith("out "):
+        if l.startswith("out ") or l.startswith("outp "):
             return G.unhx(l.split()[1])
     return None
 
@@ -87,6 +112,8 @@ def nontrivial(r):
 
 
 def observe(r, rep):
+    if "realio" in r.ops and "separate" in r.ops:
+        rep.count("branch.real_io_separate_process")      # its stream (`outp`) is not kept for the diff
     s = _stream(r)
     if s is None:
         return
@@ -103,6 +130,8 @@ def observe(r, rep):
         rep.count("observation.empty_group_name_case")
         if s.count(b"##teamcity[testSuiteStarted") != s.count(b"##teamcity[testSuiteFinished"):
             rep.count("observation.empty_group_name_suite_not_finished")
+    if "realio" in r.ops:
+        rep.count("branch.real_io_command_line_runner")
     if any(l.startswith("verbose 2") for l in r.ops):
         rep.count("branch.very_verbose")
         if b"before runAllPreTestAction" in s:
@@ -149,6 +178,7 @@ def tc_decode(v):
 def py_judge(ops, stream):
     """decode the stream with regular expressions and compare with the registry; returns a reason or None"""
     reg = G.read_registry(ops)
+    separate = "separate" in ops
     if any(t["group"] == b"" for t in reg["tests"]):
         return None
     if any(a[0] == "print" and (b"#" in a[1] or b"#" in a[3]) for t in reg["tests"] for a in t["acts"]):
@@ -162,7 +192,10 @@ def py_judge(ops, stream):
             want.append(("testStarted", t["name"]))
             if t["ignored"]:
                 want.append(("testIgnored", t["name"]))
-            for (ffile, fline, msg) in G.failures(t):
+            fs = G.failures(t)
+            if separate and fs:
+                fs = fs + [(t["file"], t["line"], b"Failed in separate process")]
+            for (ffile, fline, msg) in fs:
                 want.append(("testFailed", t["name"], ffile, fline, msg, t))
             want.append(("testFinished", t["name"]))
         want.append(("testSuiteFinished", g))
@@ -196,14 +229,14 @@ def py_judge(ops, stream):
 def extra(ctx, exe):
     rng, rep = ctx.rng, ctx.rep
     n = 400 if ctx.tier == "quick" else 2000
-    cases = [("py:%d" % i, gen_case(rng, rng.choice([1, 3, 8]))) for i in range(n)]
+    cases = [("py:%d" % i, gen_case(rng, rng.choice([1, 3, 8]), real_io=(i % 5 == 0))) for i in range(n)]
     out, _ = core.run_harness(exe, cases)
     impl, _ = core.split_cases(out)
     bad = None
     for cid, ops in cases:
         lines = impl.get(cid, [])
         # only the first run is judged here
-        s = next((G.unhx(l.split()[1]) for l in lines if l.startswith("out ")), None)
+        s = next((G.unhx(l.split()[1]) for l in lines if l.startswith("out ") or l.startswith("outp ")), None)
         if s is None:
             bad = (cid, ops, "no stream captured: %s" % lines[-2:])
             break
